@@ -316,6 +316,19 @@ impl Interner {
         COMMON_STRINGS_UTF8.len() + self.utf16_interner.len()
     }
 
+    /// Verification hook (`--cfg boa_verif`): the strings interned dynamically, i.e. everything
+    /// except the static common strings, in interning order.
+    #[cfg(boa_verif)]
+    #[must_use]
+    pub fn verif_dynamic_strings(&self) -> Vec<String> {
+        let first = COMMON_STRINGS_UTF8.len() + 1;
+        (first..=self.len())
+            .filter_map(Sym::new)
+            .filter_map(|sym| self.resolve(sym))
+            .map(|s| s.to_string())
+            .collect()
+    }
+
     /// Returns `true` if the [`Interner`] contains no interned strings.
     ///
     /// # Examples
